@@ -11,6 +11,48 @@ PROFILES = ["tiny", "small", "medium", "large", "huge", "all-equal", "two-valued
             "arithmetic"]
 
 
+MASK64 = (1 << 64) - 1
+
+
+def splitmix(seed, count, lo, hi):
+    """count integers in lo..hi, a pure function of seed (splitmix64).  Hypothesis draws the seed; its own integer
+    strategy is deliberately biased towards small and special values, which makes 'typical' instances (where
+    heuristics are not optimal) rare - this expansion gives the evenly spread ones."""
+    out, x = [], seed & MASK64
+    span = hi - lo + 1
+    for _ in range(count):
+        x = (x + 0x9E3779B97F4A7C15) & MASK64
+        z = x
+        z = ((z ^ (z >> 30)) * 0xBF58476D1CE4E5B9) & MASK64
+        z = ((z ^ (z >> 27)) * 0x94D049BB133111EB) & MASK64
+        z ^= z >> 31
+        out.append(lo + z % span)
+    return out
+
+
+@st.composite
+def int_lists(draw, n, lo, hi, spread=3):
+    """n ints in lo..hi: `spread` times out of spread+1 evenly spread (seed expansion), otherwise Hypothesis-native
+    (edge-value biased)."""
+    if draw(st.integers(0, spread)) > 0:
+        return splitmix(draw(st.integers(0, 2 ** 48)), n, lo, hi)
+    return draw(st.lists(st.integers(lo, hi), min_size=n, max_size=n))
+
+
+@st.composite
+def sizes(draw, lo, hi):
+    """A length in lo..hi, four times out of five from the upper third (small inputs are rarely interesting)."""
+    if hi > lo and draw(st.integers(0, 4)) > 0:
+        return draw(st.integers(max(lo, hi - max(1, (hi - lo) // 3)), hi))
+    return draw(st.integers(lo, hi))
+
+
+def bin_counts(lo, hi):
+    """Number of bins: 1 and the maximum are rare, 2-4 common."""
+    pool = [k for k in (1, 2, 2, 2, 3, 3, 3, 4, 4, 4, 5, 5, 6) if lo <= k <= hi]
+    return st.sampled_from(pool or [lo])
+
+
 @st.composite
 def planted_values(draw, k, max_len, max_sum=60):
     """k bins of equal sum S cut into random parts and shuffled: a perfect partition exists."""
@@ -19,7 +61,7 @@ def planted_values(draw, k, max_len, max_sum=60):
     budget = max_len
     for b in range(k):
         room = max(1, min(4, budget - (k - b - 1)))
-        npieces = draw(st.integers(1, room))
+        npieces = draw(st.integers(min(2, room), room))
         budget -= npieces
         cuts = sorted(draw(st.lists(st.integers(0, S), min_size=npieces - 1, max_size=npieces - 1)))
         prev = 0
@@ -33,19 +75,19 @@ def planted_values(draw, k, max_len, max_sum=60):
 def values_lists(draw, min_len=1, max_len=10, numbins=None, profiles=None, max_value=None):
     """A list of non-negative ints from a mixture of profiles.  Returns (profile, list)."""
     profile = draw(st.sampled_from(profiles or PROFILES))
-    n = draw(st.integers(min_len, max_len))
+    n = draw(sizes(min_len, max_len))
     cap = max_value
     if profile == "tiny":
         vals = draw(st.lists(st.integers(0, 4), min_size=n, max_size=n))
     elif profile == "small":
-        vals = draw(st.lists(st.integers(0, 30), min_size=n, max_size=n))
+        vals = draw(int_lists(n, 0, 30))
     elif profile == "medium":
-        vals = draw(st.lists(st.integers(1, 200), min_size=n, max_size=n))
+        vals = draw(int_lists(n, 1, 200))
     elif profile == "large":
-        vals = draw(st.lists(st.integers(1, 10 ** 6), min_size=n, max_size=n))
+        vals = draw(int_lists(n, 1, 10 ** 6))
     elif profile == "huge":
         # totals stay below 2^53: at most 64 items of at most 2^46
-        vals = draw(st.lists(st.integers(2 ** 40, 2 ** 46), min_size=n, max_size=min(n, 64)))
+        vals = draw(int_lists(min(n, 64), 2 ** 40, 2 ** 46))
     elif profile == "all-equal":
         v = draw(st.integers(0, 50))
         vals = [v] * n
@@ -53,8 +95,8 @@ def values_lists(draw, min_len=1, max_len=10, numbins=None, profiles=None, max_v
         a, b = draw(st.integers(0, 40)), draw(st.integers(0, 40))
         vals = draw(st.lists(st.sampled_from([a, b]), min_size=n, max_size=n))
     elif profile == "one-dominant":
-        rest = draw(st.lists(st.integers(0, 40), min_size=max(0, n - 1), max_size=max(0, n - 1)))
-        big = sum(rest) + draw(st.integers(-3, 10))
+        rest = draw(int_lists(max(0, n - 1), 0, 40))
+        big = (sum(rest) + draw(st.integers(-3, 10))) // draw(st.sampled_from([1, 1, 2, 3]))
         vals = draw(st.permutations(rest + [max(0, big)]))
     elif profile == "planted":
         k = numbins if (numbins and numbins >= 2) else draw(st.integers(2, 4))
